@@ -124,12 +124,19 @@ class Driver:
             return tuple(conc)
         if form == "iter":
             return iter(list(conc))
-        if form in ("lri", "lru"):
+        if form in ("lri", "lru", "lri-aged", "lru-aged"):
             # another cache as the source (big enough to hold everything; reading it must not matter to the target)
             from boltons import cacheutils
-            other = (cacheutils.LRI if form == "lri" else cacheutils.LRU)(max_size=len(conc) + 2)
+            other = (cacheutils.LRI if form.startswith("lri") else cacheutils.LRU)(max_size=len(conc) + 2)
             for a, b in conc:
                 other[a] = b
+            if form.endswith("-aged") and len(conc) >= 2:
+                # a source with a past: its oldest key re-assigned (and looked up) after the younger ones came in, so
+                # its recency order is no longer its iteration order; a mapping argument is read in iteration order
+                other[conc[0][0]] = conc[0][1]
+                other[conc[0][0]]
+                if len(conc) >= 3:
+                    other.get(conc[1][0])
             return other
         if form == "ordereddict":
             import collections
@@ -154,7 +161,7 @@ class Driver:
             v = ["pairs", "iter"] if n != "ior" else ["pairs"]
             if distinct:
                 v.append("dict")
-                v += ["lri", "lru", "ordereddict"] + (["keysgetitem"] if n != "ctor" else [])
+                v += ["lri", "lru", "lri-aged", "lru-aged", "ordereddict"] + (["keysgetitem"] if n != "ctor" else [])
                 if n == "update" and self.name.startswith("str-keys"):
                     v.append("kw")
                     if len(op["arg"]) >= 2:
